@@ -183,12 +183,12 @@ impl Scenario for C08 {
       1 => Gate::SelfWake(rng.range(1, 3) as u8),
       _ => Gate::External,
     };
-    let p = *rng.pick(&[1u32, 3, 10]);
+    let p = *rng.pick(&[1u32, 3, 10, 10, 1000, 1500]);
     let src = match rng.below(10) {
       0 | 1 => Src::Interval { p, take: rng.range(1, 6) },
-      2 | 3 => Src::IntervalAt { off: *rng.pick(&[-5, 0, 1, 2, 5, 12, 30]), p, take: rng.range(1, 5) },
-      4 => Src::Timer { d: *rng.pick(&[0, 3, 10, 30, 100]) },
-      5 => Src::TimerAt { off: *rng.pick(&[-5, 0, 1, 3, 10]) },
+      2 | 3 => Src::IntervalAt { off: *rng.pick(&[-5, 0, 1, 2, 5, 12, 30, 30, 1000, 2500]), p, take: rng.range(1, 5) },
+      4 => Src::Timer { d: *rng.pick(&[0, 3, 10, 30, 100, 100, 1000, 1200]) },
+      5 => Src::TimerAt { off: *rng.pick(&[-5, 0, 1, 3, 10, 10, 1000, 2001]) },
       6 => Src::Future { gate: gate(rng) },
       7 => Src::FutureResult { gate: gate(rng), err: rng.chance(1, 2) },
       8 => Src::Stream { gates: (0..rng.below(6)).map(|_| gate(rng)).collect() },
@@ -201,7 +201,7 @@ impl Scenario for C08 {
     for _ in 0..rng.range(3, 25) {
       acts.push(match rng.weighted(&[8, 3, 5, 4, 2]) {
         0 => Act::Run(rng.below(4) as u16),
-        1 => Act::Advance(*rng.pick(&[1u32, 2, 7, 25])),
+        1 => Act::Advance(*rng.pick(&[1u32, 2, 7, 25, 25, 1000])),
         2 => Act::AdvanceNext,
         3 => Act::Release,
         _ => Act::SpuriousPoll(rng.below(4) as u16),
